@@ -618,7 +618,7 @@ fn count_val(obs: &mut Obs, path: &str, v: &str) {
 fn count_ty(g: &mut Gen, t: &Ty) {
     let k = match t { Ty::Bool => "bool", Ty::I64 => "i64", Ty::U64 => "u64", Ty::I32 => "i32", Ty::U32 => "u32", Ty::F64 => "f64", Ty::F32 => "f32", Ty::Str => "str", Ty::Any => "any", Ty::Ign => "ign", Ty::U16 => "u16", Ty::I16 => "i16", Ty::U8 => "u8", Ty::I8 => "i8",
         Ty::Opt(x) => { count_ty(g, x); "opt" } Ty::Seq(x) => { count_ty(g, x); "seq" } Ty::Map(x) => { count_ty(g, x); "map" } Ty::Prop(x) => { count_ty(g, x); "prop" }
-        Ty::Struct(fs) => { for (_, x) in fs { count_ty(g, x); } "struct" } Ty::Enum(_) => "enum", Ty::Tuple(ts) => { for x in ts { count_ty(g, x); } "tuple" } };
+        Ty::Struct(fs) => { for (_, x) in fs { count_ty(g, x); } "struct" } Ty::Enum(_) => "enum", Ty::Tuple(ts) => { for x in ts { count_ty(g, x); } "tuple" } Ty::Unit => "unit" };
     g.count(&format!("ty:{}", k));
 }
 
@@ -640,7 +640,72 @@ fn exec_wide(w: &[&str], obs: &mut Obs) -> Option<String> {
     None
 }
 
+/// implementation-only: tape path == reader path (every capacity / read size) for target types outside the
+/// Lean models' `Ty` grammar (unit, fixed-length tuples): `x-paths <enc> <ty> <hex>`
+fn exec_paths(w: &[&str], obs: &mut Obs) -> Option<String> {
+    if let ["x-paths", enc, ty, h] = w {
+        use serde::de::DeserializeSeed;
+        let ty = crate::tyseed::parse_ty(ty)?;
+        let d = unhex(h)?;
+        let utf8 = *enc == "u";
+        let tape = (|| -> Result<String, String> {
+            if utf8 { let de = jomini::TextDeserializer::from_utf8_slice(&d).map_err(|e| e.to_string())?; crate::tyseed::TySeed(&ty).deserialize(&de).map_err(|e| e.to_string()) }
+            else { let de = jomini::TextDeserializer::from_windows1252_slice(&d).map_err(|e| e.to_string())?; crate::tyseed::TySeed(&ty).deserialize(&de).map_err(|e| e.to_string()) }
+        })();
+        let show = |r: &Result<String, String>| match r { Ok(v) => v.clone(), Err(e) => crate::tyseed::err_class(e) };
+        for (cap, step) in [(32 * 1024usize, usize::MAX), (64, 1), (64, 3), (256, 7)] {
+            let steps = if step == usize::MAX { vec![] } else { vec![crate::sched::Step::Repeat(step)] };
+            let rd = crate::sched::SchedReader::new(&d, steps);
+            let tr = jomini::text::TokenReader::builder().buffer_len(cap).build(rd);
+            let r = if utf8 { let mut de = jomini::TextDeserializer::from_utf8_reader(tr); crate::tyseed::TySeed(&ty).deserialize(&mut de).map_err(|e| e.to_string()) }
+                    else { let mut de = jomini::TextDeserializer::from_windows1252_reader(tr); crate::tyseed::TySeed(&ty).deserialize(&mut de).map_err(|e| e.to_string()) };
+            let full = r.as_ref().err().map(|e| e.to_lowercase().contains("buffer")).unwrap_or(false);
+            if !full && show(&r) != show(&tape) && !(show(&r).starts_with("err") && show(&tape).starts_with("err")) {
+                obs.violation("paths-disagree-extra-types", &w.join(" "), &format!("tape {} reader(cap {}, step {}) {}", show(&tape), cap, step, show(&r)));
+                break;
+            }
+        }
+        obs.count("x-paths");
+        return Some(format!("ok {}", show(&tape)));
+    }
+    None
+}
+
+/// documents with container- and scalar-valued fields typed as `unit`, fixed-length tuples and 128-bit ints
+pub fn gen_extra_types(g: &mut Gen) {
+    use crate::docgen::*;
+    let n = g.budget(1500, 30000);
+    for _ in 0..n {
+        let doc = gen_doc(&mut g.rng, &DocCfg { max_fields: 4, ..DocCfg::save_style() });
+        let mut fs: Vec<(String, crate::tyseed::Ty)> = vec![];
+        let mut seen = std::collections::BTreeSet::new();
+        for f in &doc.fields {
+            let Some(name) = crate::tyseed::key_name(&f.key) else { continue };
+            if !seen.insert(name.clone()) { continue; }
+            use crate::tyseed::Ty;
+            let t = match &f.val {
+                Node::Arr(vs) if !vs.is_empty() && vs.len() <= 5 && vs.iter().all(|v| matches!(v, Node::Leaf(_))) && g.rng.chance(1, 2) => Ty::Tuple(vec![Ty::Any; vs.len()]),
+                Node::Obj(_) | Node::Arr(_) if g.rng.chance(1, 2) => Ty::Unit,
+                Node::Leaf(_) if g.rng.chance(1, 6) => Ty::Unit,
+                Node::Leaf(_) => if g.rng.chance(1, 2) { Ty::Any } else { Ty::Str },
+                _ => Ty::Ign,
+            };
+            fs.push((name, t));
+        }
+        if fs.is_empty() { continue; }
+        let ty = crate::tyseed::Ty::Struct(fs);
+        let bytes = render_layout(&mut g.rng, &LayoutCfg::reader_safe(), &lexemes(&doc));
+        let enc = if g.rng.chance(1, 2) { "w" } else { "u" };
+        g.emit(format!("x-paths {} {} {}", enc, crate::tyseed::show_ty(&ty), hex(&bytes)));
+    }
+    for txt in ["a={ b=1 c=2 } d=3", "a={ 1 2 3 } d=3 e=4", "a=x d=3", "d=1 a={ k={ z=1 } } e=2", "a={} d=3"] {
+        g.emit(format!("x-paths w st(a:unit;d:opt(i64);e:opt(i64);b:opt(i64);c:opt(i64);z:opt(i64)) {}", hex(txt.as_bytes())));
+    }
+    g.count("extra-type-paths");
+}
+
 pub fn gen_wide(g: &mut Gen) {
+    gen_extra_types(g);
     for txt in ["a=1 b=2", "a=-170141183460469231731687303715884105728 b=5", "a=-9223372036854775808 b=18446744073709551615 c=7", "b=3 a=4 c=-1", "a=x b=1", "a=1"] {
         g.emit(format!("x-wide-ints {}", hex(txt.as_bytes())));
     }
@@ -652,6 +717,7 @@ pub fn gen_wide(g: &mut Gen) {
 
 pub fn exec(w: &[&str], obs: &mut Obs) -> Option<String> {
     if let Some(r) = exec_wide(w, obs) { return Some(r); }
+    if let Some(r) = exec_paths(w, obs) { return Some(r); }
     let case = || w.join(" ");
     match w {
         ["tde_tape", enc, ty, tape, h, expect] => {
